@@ -14,5 +14,7 @@ out = {}
 for curve in ('p256', 'p384'):
     for which in (0, 1):
         out['%s-%d' % (curve, which)] = bu.generate_pki('dtn://srcnode/', curve, which)
+# key set 2: the end-entity key has a public coordinate with a leading zero octet
+out['p256-2'] = bu.generate_pki('dtn://srcnode/', 'p256', 2, short_coordinate=True)
 json.dump(out, open(os.path.join(VERIF, 'fixtures', 'pki.json'), 'w'), indent=1, sort_keys=True)
 print('written')
